@@ -80,3 +80,16 @@ Proof.
   cbv zeta. split; [|split; vm_compute; reflexivity].
   unfold wf, nofault. repeat split; try (left; reflexivity); vm_compute; try reflexivity; discriminate.
 Qed.
+
+(* reset: on a fault-free medium the whole region - checksum and data - is filled with the item, nothing else is touched,
+   and every access is a complete write inside the region *)
+Theorem C10_reset : forall st m item, nofault m -> (p_csize st = 2 \/ p_csize st = 4) -> 1 <= p_bsize st ->
+  m_base m <= p_caddr st -> p_caddr st + p_csize st + p_dsize st <= m_base m + N.of_nat (length (m_img m)) ->
+  p_caddr st + p_csize st + p_dsize st < 2 ^ 32 ->
+  exists m', reset st m item = (PSuccess, m') /\
+             m_img m' = blit (m_img m) (N.to_nat (p_caddr st - m_base m)) (repeat item (N.to_nat (p_csize st + p_dsize st))) /\
+             m_base m' = m_base m /\ nofault m' /\
+             (forall e, In e (m_log m') -> In e (m_log m) \/
+                        (let '(w, a, n, g) := e in w = true /\ p_caddr st <= a /\ a + n <= p_caddr st + p_csize st + p_dsize st /\ g = n)).
+Proof. exact reset_spec. Qed.
+Print Assumptions C10_reset.
